@@ -18,7 +18,7 @@ MISTAKES = (
     "return_type", "dead_code_type_error", "comptime_raises", "comptime_expr_raises",
     "entry_has_args", "non_monomorphic_entry", "struct_field_unknown", "overload_no_match",
     "nested_undefined_names", "nested_maybe_undefined_captures", "nested_branch_type_captures",
-    "nested_recursive_body_fails",
+    "nested_recursive_body_fails", "struct_bad_field_type",
 )
 
 
@@ -424,16 +424,25 @@ class ProgGen:
         sigs: list[FnSig] = []
         max_stmts = self.params.get("max_stmts", 12)
         max_depth = self.params.get("max_depth", 3)
-        for si in range(ch.draw(3, "n_structs")):
+        n_structs = ch.draw(3, "n_structs")
+        bad_structs: list[str] = []
+        if mistake and mistake["kind"] == "struct_bad_field_type":
+            n_structs = max(n_structs, 2)
+        for si in range(n_structs):
             fields = [(f"f{j}", ch.pick(SCALARS, "fty")) for j in range(ch.rng_int(1, 3, "nf"))]
             if not any(t == "int" for _, t in fields):
                 fields.append(("fi", "int"))
             s = {"name": f"{prefix}S{si}", "fields": fields, "methods": []}
+            if mistake and mistake["kind"] == "struct_bad_field_type" and si < mistake["k"]:
+                bad_structs.append(s["name"])
             if ch.draw(2, "has_method"):
                 ints = [f for f, t in fields if t == "int"]
                 s["methods"].append(("meth", [f"return self.{ints[0]} + d"]))
             self.structs.append(s)
-            src += self.struct_src(s) + [""]
+            ssrc = self.struct_src(s)
+            if s["name"] in bad_structs:
+                ssrc.insert(3, f"    fbad: NoSuchFieldType{si}")
+            src += ssrc + [""]
             defs.append(s["name"])
         fams = {"generic": ch.draw(3, "fam_generic") == 0, "overload": ch.draw(4, "fam_over") == 0,
                 "comptime": ch.draw(3, "fam_ct") == 0, "natgen": ch.draw(4, "fam_nat") == 0}
@@ -472,6 +481,10 @@ class ProgGen:
             src += ["@guppy", f"def {prefix}ih(x: int) -> int:", f"    return x + {ch.draw(5, 'ih_c')}", ""]
             defs.append(f"{prefix}ih")
             sigs.append(FnSig(f"{prefix}ih", [("x", "int")], "int", "fn"))
+        if bad_structs:
+            ps = ", ".join(f"s{j}: {st['name']}" for j, st in enumerate(self.structs))
+            src += ["@guppy", f"def {prefix}sfn({ps}) -> int:", "    return 1", ""]
+            defs.append(f"{prefix}sfn")
         n_funcs = n_funcs if n_funcs is not None else ch.rng_int(1, 4, "n_funcs")
         bad_fn = ch.draw(n_funcs + 1, "mistake_fn") if mistake else -1
         for fi in range(n_funcs):
@@ -480,7 +493,7 @@ class ProgGen:
             sig = FnSig(f"{prefix}fn{fi}", params, ch.pick(SCALARS + ("None",), "rty"))
             b = Body(self, sig, list(sigs), max_stmts, max_depth)
             body = b.function(mistake if fi == bad_fn and mistake["kind"] not in
-                              ("comptime_raises", "entry_has_args", "non_monomorphic_entry") else None)
+                              ("comptime_raises", "entry_has_args", "non_monomorphic_entry", "struct_bad_field_type") else None)
             src += ["@guppy", f"def {sig.name}({', '.join(f'{p}: {t}' for p, t in params)}) -> {sig.ret}:"] \
                 + ind(body) + [""]
             defs.append(sig.name)
@@ -491,7 +504,7 @@ class ProgGen:
             sig.params = [("a0", "int")]
         b = Body(self, sig, list(sigs), max_stmts, max_depth)
         body = b.function(mistake if bad_fn == n_funcs and mistake["kind"] not in
-                          ("comptime_raises", "entry_has_args", "non_monomorphic_entry") else None)
+                          ("comptime_raises", "entry_has_args", "non_monomorphic_entry", "struct_bad_field_type") else None)
         if mistake and mistake["kind"] == "comptime_expr_raises":
             body.insert(0, "cz = comptime(1 // 0)")
         # make sure every family is reachable from main
@@ -510,6 +523,7 @@ class ProgGen:
         if mistake:
             bad = (sig.name if bad_fn == n_funcs or mistake["kind"] in
                    ("entry_has_args", "non_monomorphic_entry", "comptime_expr_raises")
+                   else f"{prefix}sfn" if bad_structs
                    else f"{prefix}ct" if mistake["kind"] == "comptime_raises" and fams["comptime"]
                    else f"{prefix}fn{bad_fn}" if mistake["kind"] != "comptime_raises" else None)
         return {"source": "\n".join(src) + "\n", "defs": defs, "entry": sig.name,
